@@ -7,7 +7,7 @@ from typing import cast
 from minimalloc import Buffer, Problem  # pyright: ignore[reportMissingTypeStubs]
 from xdsl.context import Context
 from xdsl.dialects import arith, builtin, func, llvm
-from xdsl.dialects.memref import DeallocOp
+from xdsl.dialects.memref import DeallocOp, ExtractAlignedPointerAsIndexOp
 from xdsl.ir import Operation, OpResult, Sequence, SSAValue
 from xdsl.parser import IndexType, IntegerAttr, StringAttr
 from xdsl.passes import ModulePass
@@ -235,6 +235,16 @@ class MiniMallocate(RewritePattern):
                 assert next_op is not None
             return next_op
 
+        def add_address_uses(value: SSAValue, buffer: Buffer) -> None:
+            """
+            The value is the address of the buffer (or computed from it):
+            whatever uses it, or a value computed from it, may still access the buffer.
+            """
+            for use in value.uses:
+                uses[get_top_level_op(use.operation)].append(buffer)
+                for result in use.operation.results:
+                    add_address_uses(result, buffer)
+
         def add_uses(value: SSAValue, buffer: Buffer) -> None:
             """
             Add all operations using the value to the use list of the buffer.
@@ -242,7 +252,9 @@ class MiniMallocate(RewritePattern):
             """
             for use in value.uses:
                 uses[get_top_level_op(use.operation)].append(buffer)
-                if isinstance(use.operation, builtin.UnrealizedConversionCastOp) or any(
+                if isinstance(use.operation, ExtractAlignedPointerAsIndexOp):
+                    add_address_uses(use.operation.aligned_pointer, buffer)
+                elif isinstance(use.operation, builtin.UnrealizedConversionCastOp) or any(
                     isinstance(result.type, builtin.MemRefType | builtin.UnrankedMemRefType)
                     for result in use.operation.results
                 ):
